@@ -347,6 +347,9 @@ def rule_wiring(chk):
                                   'processed before (or none at all)' % ('s_*' if setup == 'src_setup' else 'd_*', u_, sorted(guards(ss[0]) - set.intersection(*[guards(x) for x in us])), u_),
                        detail_ok='bound first, under no extra condition')
     c03.rule_iteration(chk)
+    # the loops around the hooks and the order in which the equations of a destination are called are part of what the compiled code computes (rules shared with C03)
+    c03.rule_do_group(chk, tpl)
+    c03.rule_regroup(chk)
     # the wrapper that `src.X` / `dst.X` resolve through must (re)bind every property AND every constant whenever an array is set
     def pick(test):
         return U(test) == 'len(group.data) > 0'
